@@ -15,6 +15,11 @@ use crate::rng::Rng;
 use crate::tt::{ALL_BOPS, ALL_QUANTS};
 use crate::Ctx;
 
+/// number of variables after executing `ops` on a manager created with n variables
+fn n_now(ops: &[Op], n: u32) -> u32 {
+    n + ops.iter().map(|o| if let Op::AddVars(k) | Op::AddNamedVars(k) = o { *k } else { 0 }).sum::<u32>()
+}
+
 /// History biased towards apply-cache hazards
 fn hostile_history(rng: &mut Rng, n: u32, len: usize, quant: bool, reorder: bool) -> Vec<Op> {
     let mut ops = vec![Op::Var(0), Op::Var(1), Op::NotVar(2), Op::FromTable(rng.next()), Op::FromTable(rng.next()), Op::FromTable(rng.next())];
@@ -22,7 +27,7 @@ fn hostile_history(rng: &mut Rng, n: u32, len: usize, quant: bool, reorder: bool
     while ops.len() < len {
         let l = live(&ops);
         let (a, b, c) = (rng.usize(l), rng.usize(l), rng.usize(l));
-        match rng.below(12) {
+        match rng.below(13) {
             // the same operand tuple under different operators back-to-back
             0..=2 => {
                 let mut bops = ALL_BOPS.to_vec();
@@ -84,6 +89,22 @@ fn hostile_history(rng: &mut Rng, n: u32, len: usize, quant: bool, reorder: bool
                 ops.push(Op::Var(rng.below(n as u64) as u32));
                 ops.push(Op::Bin(op, a, b));
                 ops.push(Op::Bin(op, 0, 1));
+            }
+            // repetition separated by add_vars: a memoised result must not survive it (for ZBDDs results
+            // can contain the tautology over all variables); cubes with a negative literal on the
+            // new bottom variable share their nodes with cubes of the smaller domain
+            11 | 12 if n_now(&ops, n) < 8 => {
+                let care = (rng.next() as u32) & ((1 << n) - 1);
+                ops.push(Op::Restrict(a, care, care));
+                ops.push(Op::Restrict(b, care, 0));
+                ops.push(Op::Not(a));
+                ops.push(Op::AddVars(1));
+                let nn = n_now(&ops, n);
+                let top = 1u32 << (nn - 1);
+                ops.push(Op::Restrict(a, care | top, care));
+                ops.push(Op::Restrict(b, care | top, 0));
+                ops.push(Op::Restrict(a, care, care));
+                ops.push(Op::Not(a));
             }
             10 if reorder => {
                 let op = *rng.pick(&ALL_BOPS);
